@@ -310,6 +310,7 @@ def make_quadratic(poly: Union[Polynomial, BinaryPolynomial], strength: float,
 
     variables = set().union(*poly)
     reduced_terms, constraints = reduce_binary_polynomial(poly)
+    variables.update(p for _, p in constraints)  # auxiliaries must not collide with products
 
     for (u, v), p in constraints:
 
